@@ -193,16 +193,48 @@ func runObjective(c *tcase, routine string) error {
 		}
 		return true
 	}
-	cons := func(x Vector) bool {
+	halfspace := func(x ConstVector) bool {
+		for i := 0; i < x.Dim(); i++ {
+			if !(x.ConstAt(i).GetFloat64() >= 2) {
+				return false
+			}
+		}
+		return true
+	}
+	ccons := func(x ConstVector) bool {
 		switch c.Class {
 		case "constraints_never":
 			return false
 		case "constraints_only_start":
 			return same(x)
+		case "constraints_halfspace":
+			return halfspace(x)
 		}
 		return true
 	}
-	hasCons := c.Class == "constraints_never" || c.Class == "constraints_only_start"
+	cons := func(x Vector) bool { return ccons(x) }
+	hasCons := c.Class == "constraints_never" || c.Class == "constraints_only_start" || c.Class == "constraints_halfspace"
+	// explicit gradient of sum (x_i - 1)^2 with the fault of the class
+	grad := func(x, g DenseFloat64Vector) error {
+		fl.evals++
+		for i := range x {
+			g[i] = 2 * (x[i] - 1)
+			if c.Class == "zero_gradient" {
+				g[i] = 0
+			}
+			if fl.active() {
+				switch fl.class {
+				case "nan":
+					g[i] *= math.NaN()
+				case "posinf":
+					g[i] *= math.Inf(1)
+				case "error":
+					return errors.New("objective failed")
+				}
+			}
+		}
+		return nil
+	}
 	var err error
 	if c.Class == "epsilon_unattainable" {
 		return runEpsilon(c, routine)
@@ -242,6 +274,18 @@ func runObjective(c *tcase, routine string) error {
 			args = append(args, rprop.Constraints{Value: cons})
 		}
 		_, err = rprop.Run(f, x0, 0.01, []float64{1.2, 0.5}, args...)
+	case "rpropGradient":
+		args := []interface{}{}
+		if hasCons {
+			args = append(args, rprop.ConstConstraints{Value: ccons})
+		}
+		_, err = rprop.RunGradient(rprop.DenseGradientF(grad), x0, 0.01, []float64{1.2, 0.5}, args...)
+	case "adamGradient":
+		args := []interface{}{}
+		if hasCons {
+			args = append(args, adam.ConstConstraints{Value: ccons})
+		}
+		_, err = adam.RunGradient(adam.DenseGradientF(grad), x0, args...)
 	case "gradientDescent":
 		_, err = gradientDescent.Run(f, x0, 0.1)
 	case "newtonRoot":
@@ -462,6 +506,24 @@ func runDomain(c *tcase, routine string) error {
 		_, err = bfgs.Run(f, x0, args...)
 	case "adam":
 		_, err = adam.Run(f, x0)
+	case "rpropGradient", "adamGradient":
+		grad := func(x, g DenseFloat64Vector) error {
+			for i := range x {
+				g[i] = 2 * x[i]
+				if outside(x[i]) {
+					if c.Class == "domain_error" {
+						return errors.New("argument outside the domain")
+					}
+					g[i] = math.NaN()
+				}
+			}
+			return nil
+		}
+		if routine == "rpropGradient" {
+			_, err = rprop.RunGradient(rprop.DenseGradientF(grad), x0, 0.01, []float64{1.2, 0.5})
+		} else {
+			_, err = adam.RunGradient(adam.DenseGradientF(grad), x0)
+		}
 	default:
 		vh.Fatal("routine not bound for the domain class: " + routine)
 	}
